@@ -278,6 +278,7 @@ def _end_to_end(ctx, rid, repo):
                 ("fourth call, everything as in the third except the bounds", Fraction(2), Fraction(1) if not forces_zero else Fraction(-1, 3))]
         if lower < 0 and not forces_zero:
             plan.append(("fifth call, NEGATIVE tested value with the fitted POI below it", Fraction(-1), Fraction(-2)))
+        plan.append(("last call, everything as in the call before (same objects, equal values) except that the data list was refilled in place", plan[-1][1], Fraction(5) if not forces_zero else Fraction(1, 5)))
         if forces_zero:
             plan = [(l_, Fraction(0), mh) for l_, _, mh in plan]
             plan[1] = (plan[1][0], Fraction(0), Fraction(-1, 2))
@@ -324,11 +325,19 @@ def _end_to_end(ctx, rid, repo):
                     data1[:] = [at("d5_0"), at("d5_1")]
                 data = data1 if i_ in (0, 4) else data2
                 bounds = bounds_b if i_ == 3 else bounds_a
+                last = i_ == len(plan) - 1
+                if last:
+                    data, bounds = prev_data, prev_bounds
+                    data[:] = [at("dlast_0"), at("dlast_1")]
+                prev_data, prev_bounds = data, bounds
                 btag = ",".join(str(to_poly(x)) for b_ in bounds for x in b_)
                 t_ = tag(data) + "|" + btag
                 mu = at(f"mu_{i_}") if not forces_zero else c(0)
                 mu_given = mu if not forces_zero else (c(0) if i_ != 1 else at("mu_nonzero"))  # q0 must test 0 whatever it is handed
                 mu_name = "mu_2" if i_ == 3 else f"mu_{i_}"
+                if last:
+                    mu_name = prev_mu_name
+                prev_mu_name = mu_name
                 if not forces_zero:
                     mu = at(mu_name)
                     mu_given = mu
